@@ -141,7 +141,7 @@ Proof.
 Qed.
 
 Lemma exec_keys : forall c, c_rules c <> [] -> c_b c = true -> c_stop0 c = false ->
-  o_map (spec_outcome EExecute c) = Some (result_keys (c_rules c)).
+  o_map (spec_outcome EExecute c) = Some (result_entries (c_rules c)).
 Proof.
   intros c Hne Hb Hs. unfold spec_outcome, spec. destruct (c_rules c) as [|r l] eqn:E; [congruence|].
   cbn [is_nil]. unfold sorted_stage. rewrite Hb, Hs, sort_prefix_continue.
@@ -149,7 +149,7 @@ Proof.
 Qed.
 
 Lemma conc_keys : forall c, c_rules c <> [] ->
-  o_map (spec_outcome EExecuteConcurrent c) = Some (result_keys (c_rules c)).
+  o_map (spec_outcome EExecuteConcurrent c) = Some (result_entries (c_rules c)).
 Proof.
   intros c Hne. unfold spec_outcome, spec. destruct (c_rules c) as [|r l] eqn:E; [congruence|].
   cbn [is_nil o_map]. unfold executed. cbn [flat_map seg_rules]. now rewrite app_nil_r.
@@ -161,6 +161,7 @@ Proof.
   apply existsb_exists in E. destruct E as (x & Hi & Hx). apply String.eqb_eq in Hx. subst x. contradiction.
 Qed.
 
+(* key-level view, kept from the key-only model *)
 Lemma fold_add_key : forall l acc, NoDup (acc ++ map rname l) ->
   fold_left add_key (map erule_of l) acc = acc ++ map rname l.
 Proof.
@@ -175,8 +176,38 @@ Proof.
     + rewrite <- app_assoc. exact ND.
 Qed.
 
+Lemma set_entry_absent : forall m n v, ~ In n (map fst m) -> set_entry m n v = m ++ [(n, v)].
+Proof.
+  induction m as [|[k w] m IH]; intros n v H; [reflexivity|].
+  cbn [set_entry map fst In app] in *.
+  destruct (String.eqb k n) eqn:E.
+  - apply String.eqb_eq in E. exfalso. apply H. now left.
+  - rewrite IH; [reflexivity|]. intro Hi. apply H. now right.
+Qed.
+
+Definition entry_of (r : rule) : string * option Z := (rname r, Some (rbody r)).
+
+Lemma fold_add_entry : forall l acc, NoDup (map fst acc ++ map rname l) ->
+  fold_left add_entry (map erule_of l) acc = acc ++ map entry_of l.
+Proof.
+  induction l as [|r l IH]; intros acc ND; cbn [map fold_left].
+  - now rewrite app_nil_r.
+  - unfold add_entry at 2. cbn [erule_of eret en eval].
+    assert (Hn : ~ In (rname r) (map fst acc)).
+    { intros Hi. apply NoDup_remove_2 in ND. apply ND. apply in_or_app. now left. }
+    rewrite (set_entry_absent _ _ _ Hn).
+    rewrite IH.
+    + now rewrite <- app_assoc.
+    + rewrite map_app, <- app_assoc. exact ND.
+Qed.
+
+Lemma result_entries_probe : forall l, NoDup (map rname l) -> result_entries (map erule_of l) = map entry_of l.
+Proof. intros l ND. unfold result_entries. now rewrite fold_add_entry. Qed.
+
 Lemma result_keys_probe : forall l, NoDup (map rname l) -> result_keys (map erule_of l) = map rname l.
-Proof. intros l ND. unfold result_keys. now rewrite fold_add_key. Qed.
+Proof.
+  intros l ND. unfold result_keys. rewrite (result_entries_probe _ ND), map_map. reflexivity.
+Qed.
 
 Lemma inv_lookup : forall k r, Inv k -> In r (sorted k) -> alookup (rname r) (ents k) = Some r.
 Proof.
@@ -185,17 +216,18 @@ Proof.
   cbn in E. subst r'. rewrite (NM n r Hi). now apply in_alookup.
 Qed.
 
+(* the values are read from the result map itself (each probe rule returns its body tag) *)
 Lemma whole_version_entries : forall k x, Inv k ->
-  (In x (flat_map (fun n => match alookup n (ents k) with Some r => [(n, rbody r)] | None => [] end)
-                  (result_keys (map erule_of (sorted k)))) <->
+  (In x (flat_map (fun kv : string * option Z => match snd kv with Some t => [(fst kv, t)] | None => [] end)
+                  (result_entries (map erule_of (sorted k)))) <->
    exists r, In r (sorted k) /\ x = (rname r, rbody r)).
 Proof.
-  intros k x HI. rewrite (result_keys_probe _ (inv_names_unique k HI)).
+  intros k x HI. rewrite (result_entries_probe _ (inv_names_unique k HI)).
   rewrite in_flat_map. split.
-  - intros (n & Hn & Hx). apply in_map_iff in Hn. destruct Hn as (r & <- & Hr).
-    rewrite (inv_lookup k r HI Hr) in Hx. destruct Hx as [<-|[]]. exists r. auto.
-  - intros (r & Hr & ->). exists (rname r). split; [now apply in_map|].
-    rewrite (inv_lookup k r HI Hr). now left.
+  - intros (kv & Hn & Hx). apply in_map_iff in Hn. destruct Hn as (r & <- & Hr).
+    cbn [entry_of fst snd] in Hx. destruct Hx as [<-|[]]. exists r. auto.
+  - intros (r & Hr & ->). exists (entry_of r). split; [now apply in_map|].
+    cbn [entry_of fst snd]. now left.
 Qed.
 
 Lemma map_not_nil : forall (A B : Type) (f : A -> B) l, l <> [] -> map f l <> [].
